@@ -1041,6 +1041,12 @@ class C13(PropOracle):
         a["ended"] = True
         if not a["complete"]:
             self._check_refusal(w, vp, a)
+        else:
+            c = read_json(w.rootp + "cluster_config.json") or {}
+            busy = any(v.status == "ready" and v is not vp and v.pending is not None and v.pending.kind != "start" for v in w.vprocs)
+            if c.get("submitter") is not None and not busy and not os.path.exists(w.rootp + "cluster_config.json.lock"):
+                self.v(w, f"resubmit-jobs ended (exit {a['code']}) with the submitter role still recorded ({c.get('submitter')!r}) while no process is running: "
+                          "every later resubmit-jobs / try-submit-jobs is refused", "resubmit-left-submitter-role")
 
     def on_vend(self, w, vp, d):
         if vp.name.startswith("resub") and d.get("crashed") and self.active is not None:
